@@ -223,14 +223,86 @@ pub fn run(tier: &str) -> i32 {
     });
     leaves_total += hs.len() as u64;
     fam.push(json!({"family": "every length 0..N by singles and by one batch (+reopen, +append)", "N": nmax, "histories": hs.len()}));
+    // replicas serve proofs too: for every saturated (sparse) replica state of a few writer logs,
+    // every node and signature in every proof the replica is willing to create must be the
+    // reference value (declining is fine, a wrong or blank node is not)
+    let mut replica_json = vec![];
+    for n in if quick { vec![3u64, 5] } else { vec![3, 5, 6, 8] } {
+        let whist = super::c03::shape(n, 0, None);
+        let tmp = Report::new("C05", tier, "exploration");
+        let gs = FpSet::default();
+        let r = super::c03::saturate("C05", &whist, vec![super::c03::empty_replica()], super::c03::Seeks::None, true, false, &tmp, &stats, &gs);
+        let w = super::c03::build_writer(&whist);
+        let pk = key_pair(KEY_SEED).public.to_bytes();
+        let idx = std::sync::atomic::AtomicUsize::new(0);
+        let kept = &r.kept;
+        let tree = scheme::RefTree::build(&w.model.orig);
+        drop(w);
+        let (treeref, repref, statsref) = (&tree, &rep, &stats);
+        std::thread::scope(|s| {
+            for _ in 0..nthreads().min(kept.len()).max(1) {
+                s.spawn(|| loop {
+                    let i = idx.fetch_add(1, std::sync::atomic::Ordering::Relaxed);
+                    if i >= kept.len() {
+                        break;
+                    }
+                    let (img, rm) = &kept[i];
+                    let (mut rc, out) = Core::from_image(img.clone(), CacheCfg::Off);
+                    if !out.is_ok() {
+                        continue;
+                    }
+                    let len = rm.len;
+                    let mut served = 0u64;
+                    let mut reqs: Vec<(Option<RequestBlock>, Option<RequestBlock>, Option<RequestUpgrade>)> = vec![];
+                    for up in [None, if len > 0 { Some(RequestUpgrade { start: 0, length: len }) } else { None }] {
+                        for j in 0..(2 * len).saturating_sub(1) {
+                            reqs.push((None, Some(RequestBlock { index: j, nodes: 0 }), up.clone()));
+                            reqs.push((None, Some(RequestBlock { index: j, nodes: 1 }), up.clone()));
+                        }
+                        for b in 0..len {
+                            reqs.push((Some(RequestBlock { index: b, nodes: 0 }), None, up.clone()));
+                        }
+                        for st in 0..len {
+                            reqs.push((None, None, Some(RequestUpgrade { start: st, length: len - st })));
+                        }
+                    }
+                    for (b, h, u) in reqs {
+                        statsref.add("replica_requests", 1);
+                        match guard(rc.c().create_proof(b.clone(), h.clone(), None, u.clone())) {
+                            Out::Ok(Some(p)) => {
+                                served += 1;
+                                if let Some(d) = check_proof_nodes(&p, treeref, len, &pk) {
+                                    repref.violate(
+                                        "replica-proof-node",
+                                        format!("replica serves {}", if h.is_some() { "hash" } else if b.is_some() { "block" } else { "upgrade" }),
+                                        format!("writer [{}], replica(len {}, held {:?}) answered block={b:?} hash={h:?} upgrade={u:?}: {d}", hist_brief(&whist), rm.len, rm.held),
+                                        json!({"prop": "C05", "what": "replica-served", "writer": whist, "replica": {"len": rm.len, "byte_len": rm.byte_len, "held": rm.held}, "image": super::c03::image_hex(img)}),
+                                        rm.held.len() + n as usize,
+                                    );
+                                }
+                            }
+                            Out::Panic(pm) => {
+                                repref.violate("replica-proof-panics", "panic".into(), format!("replica create_proof(block={b:?} hash={h:?} upgrade={u:?}) panicked: {pm}"),
+                                    json!({"prop": "C05", "what": "replica-served", "writer": whist, "replica": {"len": rm.len, "byte_len": rm.byte_len, "held": rm.held}, "image": super::c03::image_hex(img)}), 1);
+                            }
+                            _ => {}
+                        }
+                    }
+                    statsref.add("replica_proofs_served", served);
+                });
+            }
+        });
+        replica_json.push(json!({"writer_blocks": n, "replica_states": r.kept.len()}));
+    }
     let coverage = json!({
-        "evaluations": stats.get("states_checked"),
+        "evaluations": stats.get("states_checked") + stats.get("replica_requests"),
         "distinct_nontrivial": states.len(),
         "rule": "E1 over single/batch appends and reopen with block sizes rotating through {1,0,2,3,255,256,4096,5000}; in every visited state every full tree node read from the files by the independent layout reader, the root hash, the stored Ed25519 signature and all nodes/signatures in proofs (block / hash / upgrade from every start) are compared with the independent BLAKE2b/flat-tree reference; distinct_nontrivial = distinct exact states",
         "nodes_compared": stats.get("nodes_compared"),
         "distinct_log_lengths": shapes.len(),
         "complete_histories": leaves_total,
         "families": fam,
+        "replica_served_proofs": {"shapes": replica_json, "requests": stats.get("replica_requests"), "proofs_served_and_compared": stats.get("replica_proofs_served")},
         "samples": *stats.samples.lock().unwrap(),
         "exhaustive": true,
     });
@@ -238,6 +310,30 @@ pub fn run(tier: &str) -> i32 {
 }
 
 pub fn replay(case: &Value, rep: &Report) {
+    if case["what"].as_str() == Some("replica-served") {
+        let whist: Vec<Op> = serde_json::from_value(case["writer"].clone()).unwrap_or_default();
+        let Some(img) = super::c03::image_from_hex(&case["image"]) else { return };
+        let w = super::c03::build_writer(&whist);
+        let pk = key_pair(KEY_SEED).public.to_bytes();
+        let (mut rc, out) = Core::from_image(img, CacheCfg::Off);
+        if !out.is_ok() {
+            return;
+        }
+        let len = rc.c().info().length;
+        for up in [None, if len > 0 { Some(RequestUpgrade { start: 0, length: len }) } else { None }] {
+            for j in 0..(2 * len).saturating_sub(1) {
+                for nodes in [0u64, 1] {
+                    if let Out::Ok(Some(p)) = guard(rc.c().create_proof(None, Some(RequestBlock { index: j, nodes }), None, up.clone())) {
+                        if let Some(d) = check_proof_nodes(&p, &w.tree, len, &pk) {
+                            rep.violate("replica-proof-node", "replay".into(), d, case.clone(), 1);
+                            return;
+                        }
+                    }
+                }
+            }
+        }
+        return;
+    }
     let hist = parse_hist(case);
     let stats = Stats::default();
     let states = FpSet::default();
